@@ -837,6 +837,9 @@ func (rn *Runner) Run() {
 	}
 	scfg.Implicit = cfg.Policy == "implicit"
 	scfg.MultiOK = cfg.Variant == "multiok"
+	if cfg.Variant == "lowercaps" { // the server spells its extension keywords in lower case; the scenario (and the model) count them as not advertised
+		scfg.Caps = append(scfg.Caps, "8bitmime", "smtputf8", "dsn", "enhancedstatuscodes")
+	}
 	if cfg.Redial { // the first dial of a redial scenario is fault-free: the script applies from the second connection on
 		scfg.FaultsFromConn = 2
 	}
@@ -1054,6 +1057,14 @@ func (rn *Runner) Run() {
 	}
 	if cfg.Variant == "customport" {
 		c.SetTLSPortPolicy(policy)
+	}
+	if cfg.Variant == "otherclient" {
+		// the application creates another Client, for the host the "wrong name" certificate is valid for, after this one:
+		// both keep the TLS configuration NewClient gave them
+		if _, oerr := mail.NewClient("other.example.test", mail.WithTLSPolicy(mail.TLSMandatory)); oerr != nil {
+			rn.Infra = oerr
+			return
+		}
 	}
 	for _, set := range post {
 		set(c)
